@@ -275,9 +275,11 @@ class H2Protocol:
                         {h2.settings.SettingCodes.MAX_CONCURRENT_STREAMS: 0}
                     )
                 elif not all(
-                    value.isascii() for name, value in event.headers if name == b":path"
+                    value.isascii()
+                    for name, value in event.headers
+                    if name in {b":method", b":path"}
                 ):
-                    # The path must be ASCII (RFC 3986), refuse only this stream
+                    # The method and path must be ASCII, refuse only this stream
                     self.connection.reset_stream(
                         event.stream_id, h2.errors.ErrorCodes.PROTOCOL_ERROR
                     )
